@@ -39,6 +39,7 @@ type Contract struct {
 	trusted  string // reason text for assumed contracts
 	nooverflow bool // int theory: treat signed overflow as wrapping-free without obligations (spec functions)
 	hints    []*Clause
+	split    bool // one postcondition obligation per return site
 }
 
 func (c *Contract) get(kind string) []*Clause {
@@ -127,6 +128,8 @@ func parseContracts(pkg *packages.Package) ([]*Contract, error) {
 					cur.props = append(cur.props, strings.Fields(rest)...)
 				case "inline":
 					cur.inline = true
+				case "split":
+					cur.split = true
 				case "mode":
 					cur.mode = rest
 				case "trusted":
